@@ -583,7 +583,16 @@ func (cs *ConsensusState) tryAddVote(vote *types.Vote, peerID p2p.ID) (bool, err
 				timestamp = cstate.MedianTime(cs.LastCommit.MakeCommit(), cs.LastValidators)
 			}
 
-			evidence := types.NewDuplicateVoteEvidence(voteErr.VoteA, voteErr.VoteB, timestamp, cs.Validators)
+			// votes of the previous height (late precommits) were cast by the previous validator set
+			valSet := cs.Validators
+			if voteErr.VoteA.Height < cs.Height {
+				valSet = cs.LastValidators
+			}
+			evidence := types.NewDuplicateVoteEvidence(voteErr.VoteA, voteErr.VoteB, timestamp, valSet)
+			if evidence == nil {
+				cs.Logger.Error("Conflicting votes of a validator that is not in the validator set", "height", voteErr.VoteA.Height)
+				return added, err
+			}
 			evidenceErr := cs.evpool.AddEvidenceFromConsensus(evidence)
 			if evidenceErr != nil {
 				cs.Logger.Error("Failed to add evidence to the evidence pool", "err", evidenceErr)
